@@ -1,11 +1,14 @@
 import OjgVerif.Common.Driver
 import OjgVerif.JPath.Model
+import OjgVerif.JPath.Machines
 import OjgVerif.JPath.FilterSpec
 /-! Driver ops of the JSONPath family (C05, C11).
 
 Request: `<op> <rep> <flags> <path> <data>` (tab separated)
 * op: `specrfc` (the documented denotation: RFC 9535 slices), `spec` (the denotation in the code's reading of slices), `get` (the Get machine), `gets` (Get through the skeleton, with
-  locations), `first`, `has`, `locate`, `walk`, `nodes`, `firstnode`
+  locations), `first`, `has`, `locate`, `walk`, `nodes`, `firstnode` (the skeleton models); `firstm`, `hasm` (the
+  FirstFound and Has work-list machines of JPath/Machines.lean), `locatem`, `walkm` (the recursive locate/Walk
+  methods of JPath/Machines.lean, no budget), `locatemax<k>` (Locate with the budget `max = k`)
 * rep: `<array kind>.<object kind>`, e.g. `any.map`, `gen.gen`, `indexed.keyed`, `rslice.struct`
 * flags: the deviation flags that are on, one letter each (`-` = none):
   `e` innerEmptySlice, `s` descentSiblings, `n` locNegEnd, `c` locStartClamp, `y` locEmptyArray, `o` locateRoot, `w` walkDescentNoSelf, `u` nodesUnionNil,
@@ -305,6 +308,15 @@ def answer (op : String) (cfg : Cfg) (rep : Rep) (x : List Frag) (d : JV) : Stri
   else if op = "gets" then renderLocated (getS cfg rep x d)
   else if op = "first" then renderOpt (firstM cfg rep x d)
   else if op = "has" then toString (hasM cfg rep x d)
+  else if op = "firstm" then renderOpt (firstMach cfg rep x d)
+  else if op = "hasm" then toString (hasMach cfg rep x d)
+  else if op = "locatem" then (if Locate.fault cfg rep x d then "panic" else renderLocated (locateRec cfg rep x 0 d))
+  else if op = "walkm" then renderLocated (walkRecM cfg rep x d)
+  else if op.startsWith "locatemax" then
+    -- `Locate(data, max)` with a budget; the fault model is for max = 0 only (a budget may stop the loop early)
+    match (op.drop 9).toString.toInt? with
+    | some k => (if Locate.fault cfg rep x d then "skip" else renderLocated (locateRec cfg rep x k d))
+    | none => "bad-op"
   else if op = "locate" then (if Locate.fault cfg rep x d then "panic" else renderLocated (locateM cfg rep x d))
   else if op = "walk" then renderLocated (walkM cfg rep x d)
   else if op = "nodes" then renderVals (nodesM cfg x d)
@@ -323,8 +335,8 @@ def cfgLetters (c : Cfg) : String :=
 /-- the root the scripts of a query on `d` see in an evaluator (`none`: each tested element itself). The
 specification ops: the query argument. -/
 def rootFor (cfg : Cfg) (op : String) (d : JV) : Option JV :=
-  if op = "locate" && cfg.locFilterRootNil then some .null
-  else if op = "walk" && cfg.walkFilterRootSelf then none
+  if op.startsWith "locate" && cfg.locFilterRootNil then some .null
+  else if op.startsWith "walk" && cfg.walkFilterRootSelf then none
   else some d
 
 def handle : List String → String
